@@ -34,3 +34,14 @@ Definition judge_feplan15 (x : fecfg * bool * list (Z * Z) * (Z * Z)) : Z :=
   let '(c, crashed, l, (nsched, nwaits)) := x in
   if crashed || negb (all_one (map fst l)) || negb (Z.of_nat (length l) =? fe_n c) then 2
   else if idx_ok (fe_plan c) 0 l && (nsched =? fe_expected_nsched c) && (nwaits =? b2z (fe_wait c)) then 0 else 1.
+
+(* `fecap` (harness/h_loops.cpp): wait=false, all chunks kept queued until the caller's heap-allocated functor has been
+   retargeted to a decoy, poisoned and freed.  (cfg, crashed, counts through the ORIGINAL functor state,
+   (applications that saw the poisoned canary, applications that landed in the decoy), closures scheduled or -1 when
+   not observable (real pool)).  Every element must have been applied exactly once through the original state =
+   functor version 0 of the model. *)
+Definition judge_fecap15 (x : fecfg * bool * list Z * (Z * Z) * Z) : Z :=
+  let '(c, crashed, counts, (bad, decoy), nsched) := x in
+  if crashed || negb (all_one counts) || negb (Z.of_nat (length counts) =? fe_n c) || negb (bad =? 0) || negb (decoy =? 0) then 2
+  else if forallb (fun a => c_state a =? 0) (fe_plan c) && ((nsched =? -1) || (nsched =? fe_expected_nsched c)) &&
+          forallb (fun i => visit_count (fe_plan c) (Z.of_nat i) =? 1) (seq 0 (length counts)) then 0 else 1.
